@@ -38,18 +38,24 @@ def alphabet(fs, variant):
 def make_units(tier):
     units = []
     n = 0
-    for flavour in ('tcp', 'msg'):
-        for fs in (None, 64) if tier == 'quick' else (None, 64, 97):
-            for variant in ((0,) if tier == 'quick' else (0, 1, 2)):
+    from mc.links import ALL_FLAVOURS
+    for fi, flavour in enumerate(('tcp', 'msg') + tuple(f for f in ALL_FLAVOURS if f not in ('tcp', 'msg'))):
+        extra = flavour not in ('tcp', 'msg')  # the other transport classes: a fifth of the pairs each in quick, all in thorough
+        for fs in (None, 64) if (tier == 'quick' or extra) else (None, 64, 97):
+            for variant in ((0,) if (tier == 'quick' or extra) else (0, 1, 2)):
                 items = alphabet(fs, variant)
                 for (i, a), (j, c) in itertools.combinations_with_replacement(list(enumerate(items)), 2):
                     n += 1
+                    if extra and tier == 'quick' and (n + fi) % 5:
+                        continue
                     v = (variant + n) % 6 if tier == 'quick' else variant
                     its = alphabet(fs, v)
                     A, B = dict(its[i][1]), dict(its[j][1])
                     A['tag'], B['tag'] = 'A', 'B'
                     bound = 1
-                    if tier == 'thorough':
+                    if extra:
+                        bound = 1
+                    elif tier == 'thorough':
                         # sized to finish within the budget on 16 cores: bound 2 for the base variant at fs None/64
                         bound = 2 if (variant == 0 and fs != 97) else 1
                     elif n % 53 == 0:
@@ -59,7 +65,7 @@ def make_units(tier):
                         for k in range(K):
                             units.append({'name': '%s+%s' % (A['kind'] + A['init'], B['kind'] + B['init']), 'inters': [A, B],
                                           'flavour': flavour, 'fs': fs, 'bound': bound, 'shard': [k, K], 'policy': pol})
-                if variant == 0 and fs:
+                if variant == 0 and fs and (not extra or flavour in ('quic', 'wsk')):
                     # publisher pacing "alternating + slow sender": two streams/channels answered by the same side, manual
                     # publishers emitting A0,B0,A1,B1,... as one actor; the writer may be blocked (blk alternative)
                     for init in ('c', 's'):
@@ -71,7 +77,7 @@ def make_units(tier):
                                 ds.append(d)
                             units.append({'name': 'alternating:%s+%s/%s' % (kinds[0], kinds[1], init), 'inters': ds, 'flavour': flavour, 'fs': fs,
                                           'bound': 1 if tier == 'quick' else 2, 'shard': [0, 1], 'round_robin': True, 'slow_sender': True})
-                if tier == 'thorough' and variant == 0:
+                if tier == 'thorough' and variant == 0 and not extra:
                     for trip in itertools.combinations(range(len(items)), 3):
                         if sum(trip) % 7:
                             continue
@@ -89,7 +95,7 @@ def bounds(tier):
 
 
 def scenario_of(unit):
-    alts = ('all', 'chunk') if unit['flavour'] == 'tcp' else ('all',)
+    alts = ('all', 'chunk') if unit['flavour'] in ('tcp', 'quic') else ('all',)
     return Mix([Inter.from_spec(_full(d)) for d in unit['inters']], unit['flavour'], unit['fs'], alts=alts,
                modes=('Q', '0'), monitors_=('delivery',), name='mix', policy=unit.get('policy', 'deliver-first'), round_robin=unit.get('round_robin', False), slow_sender=unit.get('slow_sender', False))
 
